@@ -207,6 +207,7 @@ class Ctx:
         s._sol = None; s._vars = {}; s._nE = 0; s._nF = 0; s._Ekeys = set(); s._pending = []
         s.counters = {}
         s.subst = {}; s.E_orig = None
+        s._uf = {}; s._ne_pairs = []; s._complex_E = False
         s.notes = []
         s.extra = {}
 
@@ -255,6 +256,9 @@ class Ctx:
         if k in s._Ekeys: return
         s._Ekeys.add(k)
         s.E.append(p)
+        pair = s._atom_pair(p)
+        if pair is None: s._complex_E = True
+        else: s._uf[s._uf_find(pair[0])] = s._uf_find(pair[1])
 
     # ---- elimination of unknown atoms that the equations determine linearly (a sound preprocessing: consequences of E)
     def apply_subst(s, p):
@@ -491,6 +495,58 @@ class Ctx:
     def decide_zero(s, p):
         p = s.reduce(p)
         if p.is_zero(): return True
+        zm = s.extra.setdefault('zero_memo', {})
+        k0 = frozenset(p.t.items())
+        if k0 in zm: return zm[k0]          # verdicts stay valid along a path (conditions only accumulate)
+        pair = s._atom_pair(p)
+        if pair is not None and not s._complex_E and not (s.facts and (pair[0] in s._fact_atoms() or pair[1] in s._fact_atoms())):
+            r = s._decide_pair(pair, p)
+        else:
+            r = s._decide_zero(p)
+        zm[k0] = r
+        zm[frozenset((-p).t.items())] = r
+        return r
+
+    # ---- fast path: equalities between two plain atoms (coordinates, labels) are decided by union-find, no solver call
+    @staticmethod
+    def _atom_pair(p):
+        if len(p.t) != 2: return None
+        (m1, c1), (m2, c2) = p.t.items()
+        if len(m1) != 1 or len(m2) != 1 or m1[0][1] != 1 or m2[0][1] != 1: return None
+        if c1.im != 0 or c2.im != 0 or c1.re + c2.re != 0 or abs(c1.re) != 1: return None
+        return m1[0][0], m2[0][0]
+
+    def _fact_atoms(s):
+        c = s.extra.get('_fa')
+        if c is None or c[0] != len(s.facts):
+            at = set()
+            for p, _ in s.facts: at |= p.atoms_used()
+            c = (len(s.facts), at); s.extra['_fa'] = c
+        return c[1]
+
+    def _uf_find(s, a):
+        uf = s._uf
+        uf.setdefault(a, a)
+        while uf[a] != a:
+            uf[a] = uf[uf[a]]; a = uf[a]
+        return a
+
+    def _decide_pair(s, pair, p):
+        a, b = s._uf_find(pair[0]), s._uf_find(pair[1])
+        if a == b: return True
+        for x, y in s._ne_pairs:
+            fx, fy = s._uf_find(x), s._uf_find(y)
+            if (fx == a and fy == b) or (fx == b and fy == a): return False
+        d = s._decide(('zero?', p.show(s.atoms)))
+        if d:
+            s.add_eq(p)
+            for x, y in s._ne_pairs:
+                if s._uf_find(x) == s._uf_find(y): raise PathAbort()
+        else:
+            s.NE.append(p); s._ne_pairs.append(pair)
+        return d
+
+    def _decide_zero(s, p):
         if p.is_term():
             (m, c), = p.t.items()
             if all(s.atoms.inv[a] for a, _ in m): return False
@@ -780,6 +836,20 @@ class SC:
         return o if o is NotImplemented else o.__truediv__(s)
 
     def __eq__(s, o):
+        if isinstance(o, SC):
+            # fast path: two plain atoms (coordinates, ...) -- decided without building the difference polynomial
+            ta = s.p.t; tb = o.p.t
+            if len(ta) == 1 and len(tb) == 1:
+                (ma, ca), = ta.items(); (mb, cb) = next(iter(tb.items()))
+                if len(ma) == 1 and len(mb) == 1 and ma[0][1] == 1 and mb[0][1] == 1 and ca.re == 1 and cb.re == 1 and ca.im == 0 and cb.im == 0:
+                    a, b = ma[0][0], mb[0][0]
+                    if a == b: return True
+                    key = (a, b) if a < b else (b, a)
+                    am = CTX.extra.setdefault('atom_eq_memo', {})
+                    if key in am: return am[key]
+                    r = CTX.decide_zero(s.p - o.p)
+                    am[key] = r
+                    return r
         o2 = SC.lift(o)
         if o2 is NotImplemented:
             if isinstance(o, float) and (o in _INF or o != o): return False
@@ -850,6 +920,10 @@ class SC:
     def __bool__(s):
         return not CTX.decide_zero(s.p)
 
+    def __round__(s, ndigits=None):
+        # coordinates / values on the modelled grid are unaffected by rounding to a fixed number of decimals
+        return s
+
     def __format__(s, spec):
         """formatting a symbolic number yields a placeholder token that the harness' numeral parser maps back to the value"""
         if spec.startswith('.') and spec.endswith('f') and CTX.extra.get('decimal_model'):
@@ -895,7 +969,7 @@ class SAbs:
     def __abs__(s): return s
 
     def _polar(s):
-        if CTX.is_real_poly(s.z.p): return s._real_abs()
+        if CTX.extra.get('decimal_model') and CTX.is_real_poly(s.z.p): return s._real_abs()
         return polar(s.z)[0]
     def __mul__(s, o): return s._polar() * o
     __rmul__ = __mul__
@@ -1038,7 +1112,11 @@ def unit_of_angle(ang):
         k = c.re
         if m == ():
             if k == 0: continue
-            raise Inconclusive(f'non-zero rational angle constant {k} (not a multiple of pi)')
+            # a rational angle constant (radians): an opaque unit atom (sound, merely incomplete)
+            u = at.new(f'e^j({k})', unit=True)
+            CTX.extra.setdefault('unit_atoms', {})[u] = ((), k)
+            res = res * SC(Poly.atom(u, 1))
+            continue
         if pi is not None and m == ((pi, 1),):
             q = 2 * k
             if q.denominator != 1: raise Inconclusive(f'angle {k}*pi is not a multiple of pi/2')
